@@ -43,7 +43,7 @@ type AEv struct {
 	More  bool   `json:"more"`
 	V     int    `json:"v"`
 	// Go-only
-	MT    string `json:"mt,omitempty"`    // media type
+	MT    string `json:"mt"`    // media type
 	MTOK  bool   `json:"mtok"`            // media type is valid UTF-8
 	CT    uint64 `json:"ct,omitempty"`    // custom type code
 	Multi bool   `json:"multi,omitempty"` // multiline comment
